@@ -61,6 +61,7 @@ pub fn run_case(line: &str) {
     let enc0: &'static Encoding = encs[geti(&m, "enc", 23) % encs.len()];
     let meta = getb(&m, "meta");
     let ins: Option<String> = m.get("ins").filter(|v| v.as_str() != "-").map(|v| String::from_utf8(unhex(v)).unwrap());
+    let endins: Option<String> = m.get("endins").filter(|v| v.as_str() != "-").map(|v| String::from_utf8(unhex(v)).unwrap());
     let ops = parse_ops(m.get("ops").map(|s| s.as_str()).unwrap_or("E"));
     let input: Vec<u8> = ops.iter().flat_map(|o| match o { Op::Write(d) => d.clone(), Op::End => vec![] }).collect();
     let obs = Rc::new(RefCell::new(Obs::default()));
@@ -76,7 +77,8 @@ pub fn run_case(line: &str) {
         })))
         .append_document_content_handler(DocumentContentHandlers::default()
             .text(move |t: &mut TextChunk<'_>| { let (a, b) = rng(t.source_location()); o2.borrow_mut().text.push((t.as_str().to_string(), t.last_in_text_node(), a, b)); Ok(()) })
-            .comments(move |c: &mut Comment<'_>| { let (a, b) = rng(c.source_location()); o3.borrow_mut().comments.push((c.text().to_string(), a, b)); Ok(()) }))
+            .comments(move |c: &mut Comment<'_>| { let (a, b) = rng(c.source_location()); o3.borrow_mut().comments.push((c.text().to_string(), a, b)); Ok(()) })
+            .end({ let e2 = endins.clone(); move |e: &mut lol_html::html_content::DocumentEnd<'_>| { if let Some(s) = &e2 { e.append(s, ContentType::Html); } Ok(()) } }))
         .with_encoding(AsciiCompatibleEncoding::new(enc0).unwrap())
         .with_adjust_charset_on_meta_tag(meta);
     let mut rw = Some(HtmlRewriter::new(settings, Sink(obs.clone())));
@@ -185,6 +187,7 @@ pub fn run_case(line: &str) {
         }
         if let Some((p, _)) = switch { if switch_out_len.is_none() { switch_out_len = Some(expected_out.len() + (p.min(input.len()).saturating_sub(cursor))); } }
         expected_out.extend_from_slice(&input[cursor.min(input.len())..]);
+        if let Some(s) = &endins { expected_out.extend_from_slice(&enc_at(input.len()).encode(s).0); }
         let got: Vec<u8> = o.sink.iter().flat_map(|(_, c)| c.clone()).collect();
         if got != expected_out {
             let n = got.iter().zip(expected_out.iter()).take_while(|(x, y)| x == y).count();
@@ -201,6 +204,11 @@ pub fn run_case(line: &str) {
             bad.push(format!("set_encoding calls (encoding, bytes emitted before) = {:?}, expected {:?}", calls.iter().map(|(e, n)| (e.name(), *n)).collect::<Vec<_>>(), want.iter().map(|(e, n)| (e.name(), *n)).collect::<Vec<_>>()));
         }
     }
+    // sink protocol (property C12) in this encoding: the only zero-length chunk is the very last call of a successful end()
+    let chunks: Vec<usize> = o.sink.iter().filter(|(e, _)| e.is_none()).map(|(_, c)| c.len()).collect();
+    let empties: Vec<usize> = chunks.iter().enumerate().filter(|(_, n)| **n == 0).map(|(i, _)| i).collect();
+    if all_ok { if empties != vec![chunks.len().saturating_sub(1)] || chunks.is_empty() { outln!("X c12-bad zero-length chunks at sink call positions {:?} of {} ({}): expected exactly one, last", empties, chunks.len(), enc0.name()); } }
+    else if !empties.is_empty() { outln!("X c12-bad zero-length chunk in a failed run"); }
     for b in bad.iter().take(3) { outln!("X c13-bad {}", b.replace('\n', " ")); }
     for b in bad14.iter().take(3) { outln!("X c14-bad {}", b.replace('\n', " ")); }
     outln!("X c13-stats enc={} nodes={} chunks={} long={} nonascii={} malformed={} tags={} comments={} switched={}", enc0.name(), n_nodes, n_chunks, n_long, n_nonascii, n_malformed,
